@@ -270,6 +270,10 @@ class FStringNode:
         if self.parentheses_count == 0:
             # No parentheses means that the format spec is also finished.
             self.format_spec_count = 0
+        elif self.parentheses_count < self.format_spec_count:
+            # A replacement field with its own format spec was closed inside
+            # another format spec: {x:{y:3}{z}}
+            self.format_spec_count = max(self.parentheses_count, 0)
 
     def allow_multiline(self):
         return len(self.quote) == 3
